@@ -854,7 +854,14 @@ func (rs *s3ClientStorage) TransitionObjectStorageClass(ctx context.Context, buc
 		input.WebsiteRedirectLocation = object.Metadata.WebsiteRedirectLocation
 	}
 	if _, err := rs.s3Client.CopyObject(ctx, input); err != nil {
-		return translateS3CopyError(err)
+		err = translateS3CopyError(err)
+		// A transition has no version to report: a key whose current version
+		// is a delete marker simply does not exist for it.
+		var currentDeleteMarkerError *storage.CurrentDeleteMarkerError
+		if errors.As(err, &currentDeleteMarkerError) {
+			return storage.ErrNoSuchKey
+		}
+		return err
 	}
 	return nil
 }
